@@ -15,44 +15,44 @@ Variable poll1 : bytes -> tail -> runres P.            (* PollPacket over an alw
 (* async: one reader, decode_async again and again; size = reader position delta *)
 Fixpoint stream_async (fuel : nat) (t : tail) (d : bytes) (acc : list (P * N)) : list (P * N) * final :=
   match fuel with
-  | O => (rev acc, FPanic SiteFuel)
+  | O => (rev' acc, FPanic SiteFuel)
   | S f =>
     match dec t d with
     | ROk p rest => stream_async f t rest ((p, len d - len rest) :: acc)
-    | RErr e => (rev acc, FErr e)
-    | RPanic s => (rev acc, FPanic s)
+    | RErr e => (rev' acc, FErr e)
+    | RPanic s => (rev' acc, FPanic s)
     end
   end.
 
 (* blocking: Packet::decode(&bytes[off..]); off += encode_len(packet) *)
 Fixpoint stream_block (fuel : nat) (d : bytes) (acc : list (P * N)) : list (P * N) * final :=
   match fuel with
-  | O => (rev acc, FPanic SiteFuel)
+  | O => (rev' acc, FPanic SiteFuel)
   | S f =>
     match dec TEof d with
     | ROk p _ =>
       match enc_len p with
-      | Ok n => if len d <? n then (rev ((p, n) :: acc), FPanic SiteSlice)   (* &bytes[off..] out of range *)
+      | Ok n => if len d <? n then (rev' ((p, n) :: acc), FPanic SiteSlice)   (* &bytes[off..] out of range *)
                 else stream_block f (skipn (N.to_nat n) d) ((p, n) :: acc)
-      | Err e => (rev acc, FErr e)
-      | Panic s => (rev acc, FPanic s)
+      | Err e => (rev' acc, FErr e)
+      | Panic s => (rev' acc, FPanic s)
       end
-    | RErr e => (rev acc, if is_eof e then FNone else FErr e)
-    | RPanic s => (rev acc, FPanic s)
+    | RErr e => (rev' acc, if is_eof e then FNone else FErr e)
+    | RPanic s => (rev' acc, FPanic s)
     end
   end.
 
 (* poll: a fresh default state per packet on one reader; size = reported total *)
 Fixpoint stream_poll (fuel : nat) (t : tail) (d : bytes) (acc : list (P * N)) : list (P * N) * final :=
   match fuel with
-  | O => (rev acc, FPanic SiteFuel)
+  | O => (rev' acc, FPanic SiteFuel)
   | S f =>
     let r := poll1 d t in
     match rr_res P r with
-    | None => (rev acc, FPanic SiteFuel)
+    | None => (rev' acc, FPanic SiteFuel)
     | Some (Ok (total, _, p)) => stream_poll f t (bytes_of (rr_rest P r)) ((p, total) :: acc)
-    | Some (Err e) => (rev acc, FErr e)
-    | Some (Panic s) => (rev acc, FPanic s)
+    | Some (Err e) => (rev' acc, FErr e)
+    | Some (Panic s) => (rev' acc, FPanic s)
     end
   end.
 End Stream.
